@@ -68,11 +68,12 @@ func parseHTTPDateCompat(dateStr string) (t time.Time, err error) {
 }
 
 func (r *Response) ExpiresHeader() (t time.Time, found bool, valid bool) {
-	expiresStr := r.Data.Header.Get("Expires")
-	if expiresStr == "" {
+	// An Expires field that is present but empty is an invalid date, i.e. "already expired"
+	// (RFC 9111 §5.3), not a missing field.
+	if _, found = r.Data.Header["Expires"]; !found {
 		return
 	}
-	found = true
+	expiresStr := r.Data.Header.Get("Expires")
 	if t, valid = RawTime(expiresStr).Value(); valid {
 		return
 	}
